@@ -49,8 +49,12 @@
   check.  Exceptions that remain: (a) TLV table reply with body < 16, (b) flow-mods failing `FlowModInFrame` (both with
   counterexamples), (c) multipart replies of type flow (same loop; the positive statement for `FlowStats` is not assembled
   yet), plus uncovered action kinds (set-field, Nicira) inside flow-mods.
+  Sixth round: `FlowStatsInFrame` (record walk `recordsOK` / `flowStatsOK` / `fsInstrsOK` on the visible bytes) and
+  `C10c_parse_local4` with `GoodFrame3`: Parse is local on every frame of at least 8 bytes except TLV table replies with
+  Length < 32, flow-mods failing `FlowModInFrame`, multipart replies failing `FlowStatsInFrame`, experimenter frames cut
+  before their Length field.  Still outside the predicates: action kinds not in `ActionKindCovered` (set-field, Nicira).
 -/
-import OFV.Lemmas.Local8
+import OFV.Lemmas.Local9
 namespace OFV.Props.C10c
 open OFV OFV.Go OFV.Model
 
@@ -542,6 +546,53 @@ theorem C10c_parse_local3 (n : Nat) (s t : Slice) (hs : s.WF) (ht : t.WF) (h : s
 /-- the conformant flow-mod is a good frame, with any stale bytes behind it -/
 example (tail : Bytes) : GoodFrame2 FlowModInFrame 1 ⟨fmGoodFrame ++ tail, 88⟩ := by
   unfold GoodFrame2
+  refine ⟨by show 8 ≤ 88; decide, ?_⟩
+  intro tb htb
+  have : tb = 14 := by
+    have e : (Slice.mk (fmGoodFrame ++ tail) 88).byteAt 1 = .ok 14 := rfl
+    rw [e] at htb; cases htb; rfl
+  subst this
+  exact ⟨fun _ => fmGoodFrame_inframe tail, fun h => absurd h (by decide), fun h => absurd h (by decide)⟩
+
+/-! ### sixth round -/
+
+/-- the multipart reply as Parse decodes it, flow-stats records included: on agreeing slices whose VISIBLE bytes pass the
+    in-frame check (every reached record holds its 48 fixed bytes, its instruction loop up to the record's declared length
+    passes the instruction / action checks), what the stream's recycled buffer holds behind the frame cannot influence the
+    decoded reply -/
+theorem C10c_multipart_local_inframe (s t : Slice) (hs : s.WF) (ht : t.WF) (h : s.Agree t) (hok : FlowStatsInFrame t) :
+    MultipartReply.unmarshalWith anyLenM MultipartReply.zero s = MultipartReply.unmarshalWith anyLenM MultipartReply.zero t :=
+  MultipartReply_loc_visible ⟨hs, ht, h⟩ hok
+
+/-- a conformant flow-stats reply (104 bytes, one record: empty match, goto-table 5, apply-actions [output port 1]) passes the
+    check, whatever follows it in the buffer -/
+theorem C10c_flowstats_conformant_inframe (tail : Bytes) : FlowStatsInFrame ⟨mpGoodFrame ++ tail, 104⟩ := mpGoodFrame_inframe tail
+
+/-- the over-read frame of `C10c_parse_multipart_flowstats_not_local_counterexample` fails the check -/
+theorem C10c_flowstats_cex_not_inframe : ¬ FlowStatsInFrame mpCexT := mpCex_not_inframe
+
+/-- FINAL STATEMENT (fourth form).  Parse is local — the delivered message depends neither on what the stream's recycled
+    buffer holds behind the frame, nor on its capacity, nor on the nesting bounds derived from it — on every frame of at
+    least 8 bytes EXCEPT: (a) TLV table replies with Length < 32; (b) flow-mods whose visible bytes fail `FlowModInFrame`;
+    (c) multipart replies whose visible bytes fail `FlowStatsInFrame`; (d) experimenter frames cut before their own Length
+    field; a bundle-add is good when its embedded message is.  Each exception has a machine-checked counterexample. -/
+theorem C10c_parse_local4 (n : Nat) (s t : Slice) (hs : s.WF) (ht : t.WF) (h : s.Agree t) (hg : GoodFrame3 n t) (d d' : Nat) :
+    parse d s = parse d' t := parse_good4_loc n ⟨hs, ht, h⟩ hg d d'
+
+/-- the conformant flow-stats reply is a good frame, with any stale bytes behind it -/
+example (tail : Bytes) : GoodFrame3 1 ⟨mpGoodFrame ++ tail, 104⟩ := by
+  unfold GoodFrame3
+  refine ⟨by show 8 ≤ 104; decide, ?_⟩
+  intro tb htb
+  have : tb = 19 := by
+    have e : (Slice.mk (mpGoodFrame ++ tail) 104).byteAt 1 = .ok 19 := rfl
+    rw [e] at htb; cases htb; rfl
+  subst this
+  exact ⟨fun h => absurd h (by decide), fun _ => mpGoodFrame_inframe tail, fun h => absurd h (by decide)⟩
+
+/-- … and so is the conformant flow-mod -/
+example (tail : Bytes) : GoodFrame3 1 ⟨fmGoodFrame ++ tail, 88⟩ := by
+  unfold GoodFrame3
   refine ⟨by show 8 ≤ 88; decide, ?_⟩
   intro tb htb
   have : tb = 14 := by
